@@ -683,6 +683,24 @@ def extra_cases():
     c.append(('announce ipv6 multicast ff0e::/64 next-hop 2001:db8::1', True, None))
     c.append(('announce vpls rd 65000:1 endpoint 5 base 10702 offset 1 size 8 next-hop self', None, None))
     c.append((f'announce route 10.0.0.0/24 next-hop self', True, None))
+    # every attribute keyword with a valid value, on the `announce <afi> <safi>` forms too (they share one schema)
+    for head in ('announce ipv4 unicast 10.0.0.0/24 next-hop 192.0.2.1', 'announce ipv4 nlri-mpls 10.0.0.0/24 next-hop 192.0.2.1 label 5', 'announce ipv6 unicast 2001:db8::/32 next-hop 2001:db8::1', R4):
+        c.append((f'{head} aigp 5', True, None))  # AIGP leaves only towards a neighbor configured for it
+        c.append((f'{head} atomic-aggregate', True, _attr_on_wire(6, b'')))
+        c.append((f'{head} originator-id 1.2.3.4', True, None))
+        c.append((f'{head} cluster-list [ 1.2.3.4 5.6.7.8 ]', True, None))
+        c.append((f'{head} attribute [ 0x99 0xc0 0x0102 ]', True, _attr_on_wire(0x99, b'\x01\x02')))
+        c.append((f'{head} med 7', True, _attr_on_wire(4, _be(7, 4))))
+        c.append((f'{head} community [ 65000:1 ]', True, _attr_on_wire(8, bytes.fromhex('fde80001'))))
+        c.append((f'{head} large-community [ 1:2:3 ]', True, _attr_on_wire(32, _be(1, 4) + _be(2, 4) + _be(3, 4))))
+        c.append((f'{head} extended-community [ target:65000:1 ]', True, _attr_on_wire(16, bytes.fromhex('0002fde800000001'))))
+        c.append((f'{head} aggregator ( 65000:1.2.3.4 )', True, None))
+        c.append((f'{head} origin egp', True, _attr_on_wire(1, b'\x01')))
+        c.append((f'{head} as-path [ 64500 64501 ]', True, None))
+        c.append((f'{head} path-information 1.2.3.4', True, None))
+        c.append((f'{head} name probe', True, None))
+        c.append((f'{head} watchdog probe', True, None))
+        c.append((f'{head} split /25', True, None))
     # sizes: the two-octet attribute length, the 4095 octet flow NLRI
     c.append((f'{R4} attribute [ 0x99 0xc0 0x{"ab" * 65535} ]', None, None))
     c.append((f'{R4} attribute [ 0x99 0xc0 0x{"ab" * 65536} ]', False, None))
@@ -802,6 +820,65 @@ def _replay_signs(f):
         if t == text:
             return guarded(file_case if f.get('path') == 'file' else api_case, t, must, checker) is None
     return True
+
+
+TAILS = ['', '[', '(', '[ [', '( (', '[ ]', '( )', '-1', '[ -1 ]', '( -1 )', '99999999999999999999999', '[ 99999999999999999999999 ]', 'x', '[ x', '0x', '0xZZ', '1:', ':1', '1:2:3:4', '-1:-1', '1.2.3.4:', '/', '1.2.3.4/', '1.2.3.4/-1', '::/', '[ 1 2', '( 1 2', '[ 1 , 2 ] ]', '\u00e9', '%s']
+
+
+def keyword_cases():
+    """every keyword of the route, flow and vpls grammars (read from the parsers of the tree, not a list of mine) followed by
+    each of a fixed list of malformed or unfinished values: nothing is known about the outcome except that there is one"""
+    from exabgp.configuration.flow.match import ParseFlowMatch
+    from exabgp.configuration.flow.scope import ParseFlowScope
+    from exabgp.configuration.flow.then import ParseFlowThen
+    from exabgp.configuration.l2vpn.vpls import ParseVPLS
+    from exabgp.configuration.static.route import ParseStaticRoute
+
+    def keys(cls):
+        return sorted(k for k in cls.known if isinstance(k, str))
+
+    out = []
+    for kw in keys(ParseStaticRoute):
+        for t in TAILS:
+            out.append(f'{R4} {kw} {t}'.rstrip())
+            out.append(f'announce ipv4 unicast 10.0.0.0/24 next-hop 192.0.2.1 {kw} {t}'.rstrip())
+    for kw in keys(ParseFlowMatch):
+        for t in TAILS:
+            out.append('announce flow route { match { %s %s; } then { discard; } }' % (kw, t))
+    for kw in keys(ParseFlowThen) + keys(ParseFlowScope):
+        for t in TAILS:
+            out.append('announce flow route { match { destination 10.0.0.0/24; } then { %s %s; } }' % (kw, t))
+    for kw in keys(ParseVPLS):
+        for t in TAILS:
+            out.append(f'announce vpls rd 65000:1 endpoint 5 base 10702 offset 1 size 8 next-hop 192.0.2.1 {kw} {t}'.rstrip())
+    return out
+
+
+@bounded('C18', 'every-keyword-malformed-values')
+def keyword_values(tier, seed):
+    fails, evals, distinct, samples = [], 0, set(), []
+    cases = keyword_cases()
+    for text in cases:
+        for fn, tag in ((api_case, 'api'), (file_case, 'file')):
+            if tag == 'file' and (tier != 'thorough' or to_conf(text) is None):
+                continue
+            evals += 1
+            distinct.add((tag, text))
+            try:
+                f = guarded(fn, text, None, None, seconds=10)
+            except Exception as e:  # noqa
+                f = {'what': f'the harness itself failed on this text: {type(e).__name__}: {str(e)[:120]}', 'input': {'text': text}}
+            if f:
+                f['path'] = tag
+                fails.append(f)
+    api_object(fresh=True)
+    samples = [{'text': t} for t in cases[:: max(1, len(cases) // 3)][:3]]
+    return {'evaluations': evals, 'distinct_nontrivial': len(distinct), 'bound': f'every keyword the route ({"+ announce ipv4 unicast form"}), flow match / then / scope and vpls parsers of the tree know x {len(TAILS)} malformed or unfinished values (nothing, an opening bracket only, negative, 23 digits, stray separators, unbalanced lists, a non-ASCII letter, a format directive); through the real API entry points and handlers (thorough: also a configuration file); whatever is accepted is resolved, encoded for 4 session kinds x 2 message sizes and read back by both decoders; 10 s per case', 'rule': 'one case = (path, text); distinct by that tuple', 'samples': samples, 'failures': fails}
+
+
+@replayer('C18', 'every-keyword-malformed-values')
+def _replay_keywords(f):
+    return guarded(file_case if f.get('path') == 'file' else api_case, f['input']['text'], None, None, seconds=10) is None
 
 
 @bounded('C18', 'api-and-file')
